@@ -17,6 +17,8 @@ import GmqttVerif.Generated.Facts
     F38  a connection whose CONNECT failed / timed out is not closed by the server; Stop ignores unregistered ones
     F47  setError sends the DISCONNECT with a blocking send inside errOnce.Do: a full `client.out` deadlocks every
          goroutine of the connection — and the take-over of a stalled client
+    F48  connectWithTimeOut queues AUTH(continue) / CONNACK(error) with plain sends on `client.out`: with a peer that
+         does not read, the tenth AUTH round blocks for good (reachable since b5c09eb lets readLoop read AUTH packets)
     F49  a connection that ends before CONNECT makes connectWithTimeOut return ok = true: pollMessageHandler runs on a
          nil queue store (recovered panic)
 
@@ -237,6 +239,23 @@ theorem f47_once_deadlock_as_is_stuck :
   refine ⟨_, rfl, ?_⟩; decide
 
 example : ∃ s, run (fixed true) init f47Trace = some s ∧ s.canMove (fixed true) = true := ⟨_, rfl, by decide⟩
+
+/-- F48: enhanced authentication against a peer that has stopped reading: writeLoop is stuck writing the first
+    AUTH(continue), every further round queues one more on `client.out` with a plain send
+    (`client.out <- &packets.Auth{…}`, no `select` on `client.close`), the tenth blocks. When the peer goes away writeLoop
+    exits, but connectWithTimeOut stays on that send — the 5 s timer is not consulted there —, `connected` is never
+    closed and readLoop waits for it for ever. -/
+def f48Trace : List Act :=
+  [.setStall true] ++ rep 10 [.send .authCont] ++ [.rRead, .rSend, .cRecv, .cSendAuth, .wRecv] ++
+  rep 8 [.rAuthStep, .rRead, .rSend, .cRecv, .cSendAuth] ++ [.rAuthStep, .rRead, .rSend, .cRecv] ++
+  [.peerClose, .wWriteFail, .wErr]
+
+theorem f48_auth_send_as_is_stuck :
+    ∃ s, run (asIs true) init f48Trace = some s ∧ s.dead = true ∧ s.exited = false ∧ s.canMove (asIs true) = false ∧
+      s.s = .cSendAuth ∧ s.outq.length = 8 ∧ s.w = .done ∧ s.r = .waitConn ∧ s.connectedCh = false := by
+  refine ⟨_, rfl, ?_⟩; decide
+
+example : ∃ s, run (fixed true) init f48Trace = some s ∧ s.canMove (fixed true) = true := ⟨_, rfl, by decide⟩
 
 /-- F49: the peer goes away before CONNECT. `connectWithTimeOut` sees the closed `in` (`p == nil`), returns with
     `err == nil`, i.e. ok = true, and serve() starts pollMessageHandler on a client that was never registered. -/
